@@ -9,7 +9,7 @@ TRUSTED_BASE = [
     "Go compiler/runtime, and the standard-library packages the code calls, are modelled not verified",
 ]
 
-HOOK_COMMITS = []
+HOOK_COMMITS = ["19f1632"]
 
 CONFIG = {
     "C01": {
